@@ -182,6 +182,9 @@ PROPS = {
             B("w_expr.cpp", "expr", quick=8, thorough=120, params="faults=0", oracles=["c01."] + RT_LIVE),
             B("w_expr.cpp", "expr", quick=6, thorough=90, params="faults=1,more=2,wany=1", oracles=["c01."] + RT_LIVE),
             B("w_expr.cpp", "expr", quick=4, thorough=60, params="faults=1,syncw=1,more=2", oracles=["c01."] + RT_LIVE),  # a third of the runs consume the expression with sync_wait()
+            # timers: a started schedule_after/schedule_at operation completes exactly once whatever is cancelled around it (lost completion = deadlock)
+            B("w_timer.cpp", "timer_thread", quick=3, thorough=45, oracles=["c01.", "c07.lost", "c07.double"] + RT_LIVE + RT_MEM),
+            B("w_sched.cpp", "sched_timed", quick=2, thorough=30, oracles=["c01.", "c06.lost", "c06.double"] + RT_LIVE),
             # scopes: the attach/nest/future operations arbitrate "who completes the receiver" between the child and two stop paths
             B("w_scope.cpp", "scope_v1", quick=4, thorough=60, oracles=["c01.", "c08.double", "c08.join-double", "c08.join-lost", "c09.outcome"] + RT_LIVE),
             B("w_scope.cpp", "scope_v2", quick=3, thorough=45, oracles=["c01.", "c08.double", "c08.join-double", "c08.join-lost", "c09.outcome"] + RT_LIVE),
@@ -218,6 +221,10 @@ PROPS = {
             # release build so that the adaptors' state assertions are compiled out and only the stop oracle decides
             B("w_stream.cpp", "stream", cfg="S17r", quick=5, thorough=60, oracles=["c04."] + RT_LIVE),
             B("w_stream.cpp", "stream", quick=3, thorough=45, oracles=["c04."] + RT_LIVE + RT_LIB),
+            # cancelled / dropped futures: the loser is asked to stop before the future's receiver is completed, and nothing of the
+            # shared state is touched after it may have been handed over
+            B("w_scope.cpp", "scope_v2", quick=4, thorough=60, oracles=["c04.", "c09.cancel-no-stop"] + RT_LIVE + RT_MEM),
+            B("w_scope.cpp", "scope_v1", quick=3, thorough=45, oracles=["c04.", "c09.cancel-no-stop", "c08.cleanup-no-stop"] + RT_LIVE + RT_MEM),
         ],
         level_text=("Seeded sender-interpreter runs: a random expression tree (depth<=4, <=12 nodes, <=8 scripted leaves) over the real library adaptors, each node re-erased through a harness any_snd so that every edge is a tap; leaves complete inline or later on two actor threads with value/error/done and react to stop or ignore it; an external stop request is placed before start, after k yields or when a chosen leaf has started; faults: throwing callables, a throwing k-th Val copy, spurious weak-CAS failures and wake-ups; the root op state is destroyed inside the root receiver's completion in most runs. C04 oracles: a leaf that completes after the external request_stop() returned (and is not under unstoppable) sees stop_requested()==true on the token it was given; leaves started after it start already-stopped; losers of when_all / stop_when see the internal stop; with the counting harness stop source at the root no registration is live when the root receiver is entered and the source is never touched afterwards."),
         level_note=('Trusted: as C01. Only when_all, stop_when and let_value_with_stop_source interpose stop sources in this workload; futures/scopes are in their own checks. The stream batches (workload of C13) add take_until and stop_immediately: a next() of the source that completes after request_stop() on the consumer returned must have seen the stop request.'),
@@ -245,6 +252,8 @@ PROPS = {
             B("w_expr.cpp", "expr", quick=8, thorough=90, params="faults=1", oracles=["c12.", "c04.started-after-stop", "c04.child-not-stopped", "c04.loser-not-stopped"]),
             B("w_expr.cpp", "expr", quick=4, thorough=45, params="faults=0", oracles=["c12.", "c04.started-after-stop", "c04.child-not-stopped", "c04.loser-not-stopped"]),
             B("w_expr.cpp", "expr", quick=6, thorough=90, params="faults=1,more=2,alloc=1", oracles=["c12.", "c04.started-after-stop", "c04.child-not-stopped", "c04.loser-not-stopped"]),
+            # stream adaptors that interpose their own stop source (stop_immediately, take_until) must still chain the parent's request
+            B("w_stream.cpp", "stream", cfg="S17r", quick=4, thorough=60, oracles=["c04.stop-reaches-child"] + RT_LIVE),
         ],
         level_text=("Seeded sender-interpreter runs: a random expression tree (depth<=4, <=12 nodes, <=8 scripted leaves) over the real library adaptors, each node re-erased through a harness any_snd so that every edge is a tap; leaves complete inline or later on two actor threads with value/error/done and react to stop or ignore it; an external stop request is placed before start, after k yields or when a chosen leaf has started; faults: throwing callables, a throwing k-th Val copy, spurious weak-CAS failures and wake-ups; the root op state is destroyed inside the root receiver's completion in most runs. C12 oracle: every started leaf records get_scheduler / get_allocator / a custom query CPO as seen through the receiver it was given; they must equal the root receiver's answers modified only by on (scheduler) and with_query_value (custom CPO) on the path; get_stop_token chaining is decided by C04's oracles on the same runs."),
         level_note=('Honest scope: the forwarding clause is a function of the program only; the simulator contributes the generated programs. allocate()/with_allocator pairing is covered by the more=1 batch (every allocation made through an allocator obtained from a receiver goes back to that allocator, also when a nested connect throws or an allocation fails); the allocator argument of spawn_detached/spawn_future is checked for pairing on the scope workloads (C08/C09 executions; oracle c12.allocator-pairing is decided there).'),
@@ -285,6 +294,9 @@ PROPS = {
             B("w_scope.cpp", "scope_v1", quick=8, thorough=120, oracles=["c09.", "c12.allocator-pairing"] + RT_MEM + RT_LIB),
             B("w_scope.cpp", "scope_v2", params="faults=1", quick=6, thorough=90, oracles=["c09.", "c02.", "c12.allocator-pairing"] + RT_MEM + RT_LIB),
             B("w_scope.cpp", "scope_v1", params="faults=1", quick=5, thorough=60, oracles=["c09.", "c02.", "c12.allocator-pairing"] + RT_MEM + RT_LIB),
+            # tval=1: one future per run carries a class-type value whose move constructor throws at a drawn move (into or out of the shared state)
+            B("w_scope.cpp", "scope_v2", params="tval=1", quick=4, thorough=60, oracles=["c09.", "c02."] + RT_MEM + RT_LIB),
+            B("w_scope.cpp", "scope_v1", params="tval=1", quick=3, thorough=45, oracles=["c09.", "c02."] + RT_MEM + RT_LIB),
         ],
         level_text=("Same executions as C08 (scope workloads) with the future oracles: a future awaited with or without a later cancellation, or "
                     "dropped before/after its operation completes, on another thread than the completer. Oracles: value/error equal to what the "
@@ -531,6 +543,9 @@ PROPS = {
             B("w_io.cpp", "io_epoll", cfg="S17r", rt=("fdlayer", "uring"), quick=5, thorough=120, oracles=["c14.", "c07."] + RT_ALL),
             B("w_io.cpp", "io_uring", rt=("fdlayer", "uring"), quick=14, thorough=300, oracles=["c14.", "c07."] + RT_ALL),
             B("w_io.cpp", "io_uring", cfg="S17r", rt=("fdlayer", "uring"), quick=5, thorough=120, oracles=["c14.", "c07."] + RT_ALL),
+            # rerun=1: in half of the runs the loop is first run (and left at once, a stop being pending) by the main thread, which later opens the pipe and requests the final stop
+            B("w_io.cpp", "io_epoll", params="rerun=1", rt=("fdlayer", "uring"), quick=3, thorough=45, oracles=["c14.", "c07."] + RT_ALL),
+            B("w_io.cpp", "io_uring", params="rerun=1", rt=("fdlayer", "uring"), quick=3, thorough=45, oracles=["c14.", "c07."] + RT_ALL),
             B("w_io.cpp", "io_uring_flood", rt=("fdlayer", "uring"), quick=4, thorough=60, oracles=["c14.", "c07."] + RT_ALL),
             B("w_io.cpp", "io_epoll_wfull", rt=("fdlayer", "uring"), quick=4, thorough=60, oracles=["c14."] + RT_ALL),
             B("w_io.cpp", "io_epoll_wfull", cfg="S17r", rt=("fdlayer", "uring"), quick=2, thorough=30, oracles=["c14."] + RT_ALL),
